@@ -21,6 +21,7 @@ def make_plan(tape, prop):
     feats = gs.draw_features(tape)
     for f in ISAR_FEATURES_OFF:
         feats[f] = False
+    feats["_forbid"] = ("arr_dynamic", "arr_greedy", "bytes")
     # order matters most when there are many cross-category references
     for f in ("consts", "enums", "typedefs", "unions", "nested", "const_sizes"):
         if tape.chance(1, 2):
